@@ -57,6 +57,7 @@ package art
 //@   mode bv
 //@   assigns B
 //@   ensures[frame] frame()
+//@   ensures[allocs_bytes_only] forallref(o, implies(fresh(o), atype(o) == 1000))
 //@   ensures[len] len(result) == 4 && cap(result) == 4
 //@   ensures[lanes] forall(j, 0, 4, result[j] == lane(keys, j))
 //@   ensures[fresh] fresh(result)
@@ -329,6 +330,7 @@ func first(a, _ []byte) []byte { return a }
 //@ spec refIs(ref, n, k) = (*ref).pointer == n && (*ref).tag == k && ref.obj != n && allocated(ref.obj) && ref.obj != nil && inT(n) && !pooled(n)
 
 //@ func (*node256).addChild
+//@   opt noalloc
 //@   requires n256 != nil && atype(n256) == typeid(node256) && Inv256(n256)
 //@   requires n256.children[b].pointer == nil && okChild(n256, child)
 //@   ensures[view] forallp(x, 0, 256, lookP256(n256, x) == ite(x == b, child.pointer, old(lookP256(n256, x))) && lookT256(n256, x) == ite(x == b, child.tag, old(lookT256(n256, x))))
